@@ -38,4 +38,4 @@ def run(db, rep, tier):
     rep.sample('B.inv', 'families: ' + ', '.join(sorted(data['ops'])[:12]) + ' ...')
     rep.sample('B.inv', 'e.g. operator=(SU_vector&&) from v=owned2,o=ext3 with the cache refusing the insert: invariant and accounting hold on exit')
     import fixtures
-    fixtures.controls_own(rep)
+    fixtures.controls_own(rep, db)
